@@ -808,7 +808,7 @@ class C18(runner.Check):
                     for name, f in self._l3_ops(ak):
                         self._l3_compare(st, "l3-partitioned", name, f, parts, whole,
                                          {"mode": "l3-partitioned", "array": ai, "stops": stops}, nparts=len(stops),
-                                         has_empty=any(a == b for a, b in zip(starts, stops)))
+                                         has_empty=any(a == b for a, b in zip(starts, stops)), has_none="None" in repr(data))
 
     def _l3_repartition(self, st, ak, tier):
         for ai, data in enumerate(self._l3_arrays(ak, tier)):
@@ -870,7 +870,7 @@ class C18(runner.Check):
                     else:
                         lazy = ak.from_buffers(form, length, container, lazy=True, lazy_cache=cache)
                     self._l3_compare(st, "l3-virtual", name, f, lazy, whole, {"mode": "l3-virtual", "array": ai, "config": mode},
-                                     config=mode)
+                                     config=mode, has_none="None" in repr(data))
 
     # ------------------------------------------------------------------------------------------------------------- replay
     def replay(self, case):
